@@ -1,4 +1,6 @@
 import HypatiaProofs.Lemmas.CatalogEnd
+import HypatiaProofs.Lemmas.CatalogSort
+import HypatiaProofs.Properties.C04
 
 /-!
 # C12  Catalog operations fan out to every index; legacy search equals intersection
@@ -254,6 +256,201 @@ theorem c12_search_meaning_ordered (c0 : Cat Doc) (hfresh : ∀ e ∈ c0, Fresh 
   · rintro ⟨hne, hall⟩; exact ⟨fun he => hne (h3.mpr he), hall⟩
   · rintro ⟨hne, hall⟩; exact ⟨fun he => hne (h3.mp he), hall⟩
 
+/-! ## composed with C07: the sort index's own `sort`, every `sort_type`
+
+`sortM / searchM / queryM / callM` (`HypatiaModel/CatalogSort.lean`) are `CatalogQuery.sort / search / query /
+__call__` calling the *model of `FieldIndex.sort`* (C07: limit check, empty request, empty index, the
+`sort_type` dispatch with its heuristics, forward scan / n-best / timsort) instead of its contract. -/
+
+/-- the two models share the loops of `search`: `search` is `searchSet` followed by `self.sort`, and `searchM`
+is the same `searchSet` followed by the composed `sortM` (by definition) -/
+theorem c12_search_is_set_then_sort (c : Cat Doc) (a : SearchArgs) (st : Option Field.SortType) :
+    (search c a = (do
+      match ← searchSet c a with
+      | none => pure (0, .ids [])
+      | some result => sort c result a.toSortArgs)) ∧
+    (searchM c a st = (do
+      match ← searchSet c a with
+      | none => pure (0, .ids [])
+      | some result => sortM c result a.toSortArgs st)) :=
+  ⟨search_eq_searchSet c a, rfl⟩
+
+/-- **`CatalogQuery.sort` composed with C07.**  The sort index is the field-index model after *any* history
+`hf`; `I` any set of distinct ids; every `sort_type`, `reverse`, `limit`.  When the call returns, `num` is
+`min(|I|, limit)` (`|I|` without a limit) and iterating the result shows exactly what C07 specifies over the
+history's document table: each id once, only members of `I` that have a value, ordered by value (descending
+when reversed), `min(limit, #sortable)` of them, nothing omitted sorts before anything delivered; `Unsortable`
+follows iff some member of `I` has no value and the limit was not filled – after all sortable ids. -/
+theorem c12_sort_composed (c : Cat Doc) (I : IdSet) (hnd : I.Nodup) (a : SortArgs)
+    (st : Option Field.SortType) (name : String) (e : Entry Doc) (hf : List (Field.Op Int))
+    (hs : a.sortIndex = some name) (hg : get c name = some e) (hix : e.ix = .field (Field.run hf))
+    (n : Nat) (res : ResultM) (hr : sortM c I a st = .ok (n, res)) :
+    n = Spec.num I.length a.sortIndex a.limit ∧
+    ∃ r g, res = .sorted r ∧ r.observe = some g ∧
+      Field.Spec.SortOK (Field.Spec.table hf) I a.reverse (a.limit.map Int.toNat) g.ids ∧
+      g.raised.isSome = Field.Spec.shouldRaise (Field.Spec.table hf) I (a.limit.map Int.toNat) true ∧
+      (g.raised.isSome = true → ∀ d ∈ I, Field.Spec.sortable (Field.Spec.table hf) d = true → d ∈ g.ids) :=
+  sortM_field_ok c I hnd a st name e hf hs hg hix n res hr
+
+/-- …and the call itself raises `ValueError` exactly for a limit below 1 or – request and index non-empty –
+a `sort_type` that cannot run with the flags, `Unsortable` exactly for a non-empty request on an index
+without any value -/
+theorem c12_sort_composed_errors (c : Cat Doc) (I : IdSet) (a : SortArgs) (st : Option Field.SortType)
+    (name : String) (e : Entry Doc) (hf : List (Field.Op Int)) (hs : a.sortIndex = some name)
+    (hg : get c name = some e) (hix : e.ix = .field (Field.run hf)) :
+    (sortM c I a st = .error .valueError ↔
+      Field.Spec.badLimit a.limit = true ∨
+        (I ≠ [] ∧ (∃ d v, Field.Spec.valueOf (Field.Spec.table hf) d = some v) ∧
+          Field.Spec.rejects a.reverse a.limit st = true)) ∧
+    (sortM c I a st = .error .unsortable ↔
+      Field.Spec.badLimit a.limit = false ∧ I ≠ [] ∧
+        ¬ ∃ d v, Field.Spec.valueOf (Field.Spec.table hf) d = some v) :=
+  sortM_field_errors c I a st name e hf hs hg hix
+
+theorem c12_sort_composed_without_index (c : Cat Doc) (I : IdSet) (a : SortArgs)
+    (st : Option Field.SortType) (h : a.sortIndex = none) : sortM c I a st = .ok (I.length, .ids I) :=
+  sortM_no_index c I a st h
+
+/-- the history of the sort index inside a catalog history: what the index named `name` (created fresh)
+receives from the catalog calls `h` -/
+def sortHistory (pre : Cat Doc) (e : Entry Doc) (h : List (Op Doc)) : List (Field.Op Int) :=
+  (h.flatMap (project (pre.map cfgOf) e.disc)).filterMap fieldOp
+
+/-- **Sorted search, end to end (unordered mode).**  `c0 = pre ++ e :: post`: any catalog of newly created
+indexes, `e` a field index stored under `name` (no index in front has that name); `h`: any history of catalog
+calls; `sort_index = name`, any `limit`, `reverse`, `sort_type`.  With `I` the intersection of the
+specification's per-index answers: `searchM` returns `(0, ())` when `I` is empty and otherwise `(num, result)`
+with `num = min(|I|, limit)` and `result` = the members of `I` that have a value in the sort index, ordered by
+that value, cut at `limit` (C07's clauses over the table of the sort index's own projected history). -/
+theorem c12_search_sorted_unordered (pre post : Cat Doc) (e : Entry Doc) (name : String)
+    (hfresh : ∀ x ∈ pre ++ e :: post, Fresh x.ix) (hpre : ∀ x ∈ pre, x.name ≠ name) (he : e.name = name)
+    (hfield : e.ix = .field Field.init)
+    (h : List (Op Doc)) (a : SearchArgs) (st : Option Field.SortType) (specSets : List IdSet)
+    (horder : a.order = none) (hsi : a.sortIndex = some name)
+    (hspec : a.terms.map (specResolve (pre ++ e :: post) h) = specSets.map Except.ok) :
+    ∃ I : IdSet, I.Nodup ∧ (∀ d, d ∈ I ↔ specSets ≠ [] ∧ ∀ s ∈ specSets, d ∈ s) ∧
+      (I = [] → searchM (run (pre ++ e :: post) h) a st = .ok (0, .ids [])) ∧
+      (I ≠ [] → ∀ n res, searchM (run (pre ++ e :: post) h) a st = .ok (n, res) →
+        n = Spec.num I.length (some name) a.limit ∧
+        ∃ r g, res = .sorted r ∧ r.observe = some g ∧
+          Field.Spec.SortOK (Field.Spec.table (sortHistory pre e h)) I a.reverse (a.limit.map Int.toNat) g.ids ∧
+          g.raised.isSome =
+            Field.Spec.shouldRaise (Field.Spec.table (sortHistory pre e h)) I (a.limit.map Int.toNat) true) := by
+  obtain ⟨e', hg, hix⟩ := get_run_field pre post e name h hpre he hfield
+  have hrun := run_eq_standalone (pre ++ e :: post) h
+  obtain ⟨sets, h1, h2, h3, h4⟩ := answers_of_spec (resolve (standalone [] (pre ++ e :: post) h))
+    (specResolve (pre ++ e :: post) h) a.terms specSets hspec
+    (fun t _ => (resolve_standalone_spec h t (pre ++ e :: post) [] hfresh).1)
+    (fun t _ => (resolve_standalone_spec h t (pre ++ e :: post) [] hfresh).2)
+  rw [← hrun] at h1
+  have hset := searchSet_unordered (run (pre ++ e :: post) h) a sets horder h1
+  have hm := searchM_of_set (run (pre ++ e :: post) h) a st _ hset
+  refine ⟨unorderedAnswer sets, nodup_unorderedAnswer sets h2, ?_, ?_, ?_⟩
+  · intro d
+    rw [mem_unorderedAnswer, h4 d]
+    constructor
+    · rintro ⟨hne, hall⟩; exact ⟨fun he => hne (h3.mpr he), hall⟩
+    · rintro ⟨hne, hall⟩; exact ⟨fun he => hne (h3.mp he), hall⟩
+  · intro hI; rw [hm, if_pos hI]
+  · intro hI n res hr
+    rw [hm, if_neg hI] at hr
+    obtain ⟨hn, r, g, e1, e2, e3, e4, _⟩ := sortM_field_ok (run (pre ++ e :: post) h) _
+      (nodup_unorderedAnswer sets h2) a.toSortArgs st name e' _ hsi hg hix n res hr
+    exact ⟨by rw [hn]; show Spec.num _ a.sortIndex a.limit = _; rw [hsi], r, g, e1, e2, e3, e4⟩
+
+/-- the ordered mode (`index_query_order`), end to end -/
+theorem c12_search_sorted_ordered (pre post : Cat Doc) (e : Entry Doc) (name : String)
+    (hfresh : ∀ x ∈ pre ++ e :: post, Fresh x.ix) (hpre : ∀ x ∈ pre, x.name ≠ name) (he : e.name = name)
+    (hfield : e.ix = .field Field.init)
+    (h : List (Op Doc)) (a : SearchArgs) (st : Option Field.SortType) (order : List String)
+    (specSets : List IdSet) (horder : a.order = some order) (hsi : a.sortIndex = some name)
+    (hspec : (applicable a.terms order).map (specResolve (pre ++ e :: post) h) = specSets.map Except.ok) :
+    ∃ I : IdSet, I.Nodup ∧ (∀ d, d ∈ I ↔ specSets ≠ [] ∧ ∀ s ∈ specSets, d ∈ s) ∧
+      (I = [] → searchM (run (pre ++ e :: post) h) a st = .ok (0, .ids [])) ∧
+      (I ≠ [] → ∀ n res, searchM (run (pre ++ e :: post) h) a st = .ok (n, res) →
+        n = Spec.num I.length (some name) a.limit ∧
+        ∃ r g, res = .sorted r ∧ r.observe = some g ∧
+          Field.Spec.SortOK (Field.Spec.table (sortHistory pre e h)) I a.reverse (a.limit.map Int.toNat) g.ids ∧
+          g.raised.isSome =
+            Field.Spec.shouldRaise (Field.Spec.table (sortHistory pre e h)) I (a.limit.map Int.toNat) true) := by
+  obtain ⟨e', hg, hix⟩ := get_run_field pre post e name h hpre he hfield
+  have hrun := run_eq_standalone (pre ++ e :: post) h
+  obtain ⟨sets, h1, h2, h3, h4⟩ := answers_of_spec (resolve (standalone [] (pre ++ e :: post) h))
+    (specResolve (pre ++ e :: post) h) (applicable a.terms order) specSets hspec
+    (fun t _ => (resolve_standalone_spec h t (pre ++ e :: post) [] hfresh).1)
+    (fun t _ => (resolve_standalone_spec h t (pre ++ e :: post) [] hfresh).2)
+  rw [← hrun] at h1
+  have hset := searchSet_ordered (run (pre ++ e :: post) h) a order sets horder h1
+  have hm := searchM_of_set (run (pre ++ e :: post) h) a st _ hset
+  refine ⟨orderedAnswer sets, nodup_orderedAnswer sets h2, ?_, ?_, ?_⟩
+  · intro d
+    rw [mem_orderedAnswer, h4 d]
+    constructor
+    · rintro ⟨hne, hall⟩; exact ⟨fun he => hne (h3.mpr he), hall⟩
+    · rintro ⟨hne, hall⟩; exact ⟨fun he => hne (h3.mp he), hall⟩
+  · intro hI; rw [hm, if_pos hI]
+  · intro hI n res hr
+    rw [hm, if_neg hI] at hr
+    obtain ⟨hn, r, g, e1, e2, e3, e4, _⟩ := sortM_field_ok (run (pre ++ e :: post) h) _
+      (nodup_orderedAnswer sets h2) a.toSortArgs st name e' _ hsi hg hix n res hr
+    exact ⟨by rw [hn]; show Spec.num _ a.sortIndex a.limit = _; rw [hsi], r, g, e1, e2, e3, e4⟩
+
+/-- **`query` / `__call__` composed with C07.**  `I`: the distinct ids the query object's `_apply` returned
+(C04; `c12_catalog_is_model_catalog` for what it is evaluated over).  With a field sort index after any history
+`query` / `__call__` return `(min(|I|, limit), the sortable members of I by value)`. -/
+theorem c12_query_sorted (c : Cat Doc) (I : IdSet) (hnd : I.Nodup) (a : SortArgs)
+    (st : Option Field.SortType) (name : String) (e : Entry Doc) (hf : List (Field.Op Int))
+    (hs : a.sortIndex = some name) (hg : get c name = some e) (hix : e.ix = .field (Field.run hf))
+    (n : Nat) (res : ResultM) (hr : callM c I a st = .ok (n, res)) :
+    callM c I a st = queryM c I a st ∧ queryM c I a st = sortM c I a st ∧
+    n = Spec.num I.length a.sortIndex a.limit ∧
+    ∃ r g, res = .sorted r ∧ r.observe = some g ∧
+      Field.Spec.SortOK (Field.Spec.table hf) I a.reverse (a.limit.map Int.toNat) g.ids ∧
+      g.raised.isSome = Field.Spec.shouldRaise (Field.Spec.table hf) I (a.limit.map Int.toNat) true :=
+  by
+    obtain ⟨hn, r, g, e1, e2, e3, e4, _⟩ := sortM_field_ok c I hnd a st name e hf hs hg hix n res hr
+    exact ⟨rfl, rfl, hn, r, g, e1, e2, e3, e4⟩
+
+/-- **The catalog after any history of catalog calls is a catalog of index models after histories** (fan-out,
+`c12_fanout_history`, read by `hypatia.query`): there are per-index histories `hs` – the projected ones – with
+`mcatOf (run c0 h) = modelCatalog hs`; hence (C04, `c04_end_to_end_no_text`) every query tree evaluated over the
+catalog's indexes has the outcome the specification tables of those histories give. -/
+theorem c12_catalog_is_model_catalog (c0 : Cat Doc) (hfresh : ∀ e ∈ c0, Fresh e.ix) (h : List (Op Doc))
+    (names : List Facet.Facet) :
+    ∃ hs : List Query.IndexH, mcatOf names (run c0 h) = Query.modelCatalog hs ∧
+      ∀ q : Query.Q, Query.ResEq (Query.applyQM (mcatOf names (run c0 h)) q)
+        (Query.applyQ (Query.specCatalog hs) q) := by
+  rw [run_eq_standalone]
+  obtain ⟨hs, h1, h2⟩ := mcatOf_standalone names h c0 [] hfresh
+  refine ⟨hs, h1, fun q => ?_⟩
+  rw [h1]
+  exact Query.applyQM_refines hs (Query.histsOK_of_noText hs h2) q (Query.leavesListed_of_noText hs h2 q)
+
+/-- **`query.execute().sort(index, …)`**: the result set of a query evaluated over the catalog's index models
+(`executeM`: `ResultSet(ids, len(ids), resolver)`, C04/C11), sorted through `ResultSet.sort` (C11) by a field
+index model after any history (C07): `len` = `min(|I|, limit)`, iteration yields the sortable members of `I`
+ordered by value and ends with `Unsortable` exactly when due, the result is marked STABLE. -/
+theorem c12_resultset_sort_composed {R : Type} (c : Cat Doc) (names : List Facet.Facet) (q : Query.Q)
+    (resolver : Option (Int → R)) (rs : RSet.RS R) (hq : executeM names c q resolver = .ok rs)
+    (hnd : (RSet.Spec.seq rs).Nodup) (hf : List (Field.Op Int)) (reverse : Bool) (limit : Option Int)
+    (st : Option Field.SortType) (raiseU : Bool) (rs' : RSet.RS R)
+    (hs : (rs.sort (Field.sort (Field.run hf)) reverse limit st raiseU).2 = .ok rs') :
+    (∃ I, Query.applyQM (mcatOf names c) q = .ok I ∧ RSet.Spec.seq rs = I ∧ rs.len = I.length) ∧
+    rs'.len = Field.Spec.cut (limit.map Int.toNat) (RSet.Spec.seq rs).length ∧
+    Field.Spec.SortOK (Field.Spec.table hf) (RSet.Spec.seq rs) reverse (limit.map Int.toNat) (RSet.Spec.seq rs') ∧
+    (RSet.Spec.pending rs').isSome =
+      Field.Spec.shouldRaise (Field.Spec.table hf) (RSet.Spec.seq rs) (limit.map Int.toNat) raiseU ∧
+    rs'.sortType = some .stable := by
+  unfold executeM at hq
+  cases hI : Query.applyQM (mcatOf names c) q with
+  | error e => rw [hI] at hq; cases hq
+  | ok I =>
+    rw [hI] at hq
+    simp only [Except.map, Except.ok.injEq] at hq
+    subst hq
+    obtain ⟨h1, h2, h3, _, h5, _⟩ := rs_sort_field hf I hnd resolver reverse limit st raiseU rs' hs
+    exact ⟨⟨I, rfl, rfl, rfl⟩, h1, h2, h3, h5⟩
+
 /-! ## non-vacuity
 
 A catalog of a field index on `x` and a keyword index on `k` (documents: `(x?, k?)`, a `none`
@@ -310,6 +507,23 @@ example : ∀ e ∈ c0, Fresh e.ix := by
 
 example : [("f", QArg.int (.plain (.bare (.val 3)))), ("k", .int (.plain (.seq [.val 1])))].map
     (specResolve c0 hist) = [[5, 2], [2, 3, 1]].map Except.ok := by rfl
+
+/-- the composed model on the same catalog: sorted, limited search through the sort index's own `sort` (forced
+timsort / n-best – the automatic choice goes through floating-point heuristics `decide` does not evaluate),
+document 3 has no value in `f`: `Unsortable` follows the sortable ids when the limit is not filled -/
+def idsM : Except Err (Nat × ResultM) → Option (Nat × List Int × Bool)
+  | .ok (n, .ids s) => some (n, s, false)
+  | .ok (n, .sorted r) => (r.observe).map (fun g => (n, g.ids, g.raised.isSome))
+  | .error _ => none
+
+example :
+    let c := run c0 hist
+    idsM (searchM c { terms := [("f", .int (.plain (.bare (.range none none))))], sortIndex := some "f",
+                      limit := some 2, reverse := true } (some .timsort)) = some (2, [1, 2], false) ∧
+    idsM (searchM c { terms := [("k", .int (.dict (some .or) (some (.seq [.val 0, .val 1]))))], sortIndex := some "f",
+                      limit := some 9 } (some .nbest)) = some (3, [2, 1], true) ∧
+    idsM (searchM c { terms := [("k", .int (.dict (some .or) (some (.seq [.val 0, .val 1]))))], sortIndex := some "f",
+                      limit := some 0 } none) = none := by decide
 
 end nonvac
 
